@@ -861,6 +861,9 @@ func (w *worker) runDataset(idx int) {
 					if o, ok := d.objs[id]; ok && (o.Empty || !o.Spatial) {
 						continue // empty geometries and strings are not spatial results
 					}
+					if id == "zz-nonfinite" {
+						continue // a geometry with NaN / infinite coordinates has no place in an index: never required
+					}
 					key := "lost:" + class
 					if strings.HasPrefix(a.kind, "CIRCLE") {
 						// scenario class: the candidate rectangle of a CIRCLE area is the bounding box of a
@@ -938,7 +941,7 @@ func (w *worker) runDataset(idx int) {
 
 // Run is the C02 check.
 func Run(ctx *core.Ctx) {
-	ctx.Rule = "each dataset is built on a fresh key by a PRNG history (insert, overwrite with another kind, move, copy, rewrite, delete, optional DROP + recreate, optional mass delete, optional RENAME) of points/rects/geohash points/lines/polygons (concave, holed)/multi-geometries/collections/features/strings/empty geometries (one dataset in three starts with a GeoJSON object whose coordinates are null / 1e999, if the server accepts it) in one region class (world, local cluster down to 1e-7 deg, poles, antimeridian, around 0,0) with float32-hostile coordinates (exact float32 values +-1..2 ulp64, float32 midpoints, shared grid values, float64 denormals); each query is WITHIN or INTERSECTS key LIMIT 1e8 IDS <area> with area in BOUNDS/TILE/QUADKEY/HASH/CIRCLE/SECTOR/POINT/GET/OBJECT (polygon, concave, holed, multi*, line, feature, collections), 1 in 5 with one or two CLIPBY <rect kind> clauses; area edges and centres are taken from object coordinates (exact, +-1 ulp, same float32 gap) and from former positions of moved/deleted objects. Oracle: TEST GET key id WITHIN|INTERSECTS <area> for every id of SCAN (for CLIPBY the area is the object returned by TEST <area> INTERSECTS CLIP <rect>, fed back as OBJECT); the result must equal the ids with TEST = 1 (strings and empty geometries are never required), without duplicates; 1 in 4 queries is repeated with SPARSE n and must be a duplicate-free subset. grid layer: TILE/QUADKEY (z 0-20, always incl. the rim cells x,y in {0, 2^z-1}) and HASH (1-10 characters) cells against the rectangle of the grid's public definition: probe points 1/1000 of the cell size inside and outside every edge, WITHIN/INTERSECTS <cell> must return exactly the inside probes. non-trivial = query with a non-empty result or a non-empty TEST-true set; distinct key = (command, area kind [+clipby kind], dataset hash, result size bucket)"
+	ctx.Rule = "each dataset is built on a fresh key by a PRNG history (insert, overwrite with another kind, move, copy, rewrite, delete, optional DROP + recreate, optional mass delete, optional RENAME) of points/rects/geohash points/lines/polygons (concave, holed)/multi-geometries/collections/features/strings/empty geometries (one dataset in three starts with a GeoJSON object whose coordinates are null / 1e999, if the server accepts it) in one region class (world, local cluster down to 1e-7 deg, poles, antimeridian, around 0,0) with float32-hostile coordinates (exact float32 values +-1..2 ulp64, float32 midpoints, shared grid values, float64 denormals); each query is WITHIN or INTERSECTS key LIMIT 1e8 IDS <area> with area in BOUNDS/TILE/QUADKEY/HASH/CIRCLE/SECTOR/POINT/GET/OBJECT (polygon, concave, holed, multi*, line, feature, collections), 1 in 5 with one or two CLIPBY <rect kind> clauses; area edges and centres are taken from object coordinates (exact, +-1 ulp, same float32 gap) and from former positions of moved/deleted objects. Oracle: TEST GET key id WITHIN|INTERSECTS <area> for every id of SCAN (for CLIPBY the area is the object returned by TEST <area> INTERSECTS CLIP <rect>, fed back as OBJECT); the result must equal the ids with TEST = 1 (strings, empty geometries and a geometry with non-finite coordinates are never required), without duplicates; 1 in 4 queries is repeated with SPARSE n and must be a duplicate-free subset. grid layer: TILE/QUADKEY (z 0-20, always incl. the rim cells x,y in {0, 2^z-1}) and HASH (1-10 characters) cells against the rectangle of the grid's public definition: probe points 1/1000 of the cell size inside and outside every edge, WITHIN/INTERSECTS <cell> must return exactly the inside probes. non-trivial = query with a non-empty result or a non-empty TEST-true set; distinct key = (command, area kind [+clipby kind], dataset hash, result size bucket)"
 	ctx.Assumptions = []string{
 		"coordinates finite and inside [-90,90]x[-180,180]; polygons have fewer than 64 points",
 		"SECTOR/CIRCLE arguments finite (non-finite SECTOR arguments wedge the server: separate finding D14); WITHIN key GEO not used (D13)",
@@ -988,6 +991,7 @@ func Run(ctx *core.Ctx) {
 	wg.Wait()
 	if only < 0 {
 		gridAreaProbe(ctx, bin)
+		nonFiniteProbe(ctx, bin)
 	}
 	if ctx.Violations() == 0 {
 		inPackageLayer(ctx)
